@@ -7,7 +7,7 @@ import numpy as np
 import casadi as ca
 
 from .. import oracles as O
-from ..groups import ProductSpec, SO3Spec, SE3Spec, SE23Spec, SO2Spec, SE2Spec, RnSpec
+from ..groups import ProductSpec, SO3Spec, SE3Spec, SE23Spec, SO2Spec, SE2Spec, RnSpec, EulerSeqSpec
 
 PI = np.pi
 
@@ -114,6 +114,8 @@ TRANS_CORPUS = np.array([[0, 0, 0], [1, -2, 3], [1e6, -1e-6, 0.5], [-1e-9, 1e-9,
 
 def group_corpus(spec):
     rng = np.random.default_rng(7)
+    if isinstance(spec, EulerSeqSpec):
+        return np.array([[0.0, 0, 0], [PI / 2, 0, 0], [0, PI / 2, 0], [0.3, -2.0, 3.0], [PI, PI, -PI], [1e-9, 0, -1e-9]])
     if isinstance(spec, SO3Spec):
         return so3_corpus(spec, rng)
     if isinstance(spec, SE3Spec):
@@ -143,6 +145,8 @@ def group_corpus(spec):
 
 def algebra_corpus(spec):
     """boundary algebra vectors: zero, denormal, around every switch, pi, beyond pi"""
+    if isinstance(spec, EulerSeqSpec):
+        return algebra_corpus(SO3Spec("quat"))
     ths = [0.0, 5e-324, 1e-300, 1e-160, 1e-20, 1e-9, 1e-4, 9.9999e-4, 1e-3, 1.00001e-3, 0.0316, 0.031622, 0.031623,
            0.0632, 0.063245, 0.063246, 0.1, 1.0, PI / 2, PI - 1e-6, PI, PI + 1e-6, 4.0, 2 * PI - 0.06]
     th = np.array(ths)
